@@ -6,6 +6,7 @@ mod heapgraph;
 mod natives;
 mod run;
 mod threads;
+mod typeck;
 
 use std::io::BufRead;
 use std::io::Write;
@@ -55,6 +56,47 @@ pub fn guarded<F: FnOnce() -> Vec<J> + Send + 'static>(stack_mb: usize, f: F) ->
     }
 }
 
+/// Seeded storm of allocations, junk heaps and junk frozen modules; what is returned stays alive during the batch.
+fn noise(seed: u64) -> (Vec<Vec<u8>>, Vec<starlark::environment::FrozenModule>) {
+    use starlark::environment::Module;
+    use starlark::eval::Evaluator;
+    use starlark::syntax::AstModule;
+    use starlark::syntax::Dialect;
+    let mut x = seed.wrapping_mul(0x9E3779B97F4A7C15) | 1;
+    let mut next = move || {
+        x ^= x << 13;
+        x ^= x >> 7;
+        x ^= x << 17;
+        x
+    };
+    let mut keep = Vec::new();
+    for _ in 0..(next() % 400) {
+        let n = (next() % 70000) as usize + 1;
+        let v = vec![(n & 0xff) as u8; n];
+        if next() % 3 == 0 {
+            keep.push(v);
+        }
+    }
+    let globals = run::globals();
+    let mut mods = Vec::new();
+    for i in 0..(next() % 12) {
+        let src = format!("J = [str(i) * {} for i in range({})]\ndef jf(x):\n    return [x, J]\nK = {{i: jf(i) for i in range({})}}\n", next() % 40, next() % 300, next() % 50);
+        if let Ok(ast) = AstModule::parse("junk.star", src, &Dialect::Extended) {
+            let fm = Module::with_temp_heap(|m| {
+                {
+                    let mut e = Evaluator::new(&m);
+                    let _ = e.eval_module(ast, &globals);
+                }
+                m.freeze().ok()
+            });
+            if let (Some(fm), true) = (fm, i % 2 == 0) {
+                mods.push(fm);
+            }
+        }
+    }
+    (keep, mods)
+}
+
 fn main() {
     let args: Vec<String> = std::env::args().collect();
     if args.len() < 4 {
@@ -81,6 +123,9 @@ fn main() {
         }
     }
     let stack_mb: usize = opts.get("stack_mb").and_then(|s| s.parse().ok()).unwrap_or(8);
+    let main_thread = opts.get("main_thread").map(|s| s == "1").unwrap_or(false);
+    // Allocation noise: different addresses, allocator and chunk-cache states before the batch (C14).
+    let _noise_keep = opts.get("noise").and_then(|s| s.parse::<u64>().ok()).map(noise);
     for line in std::io::BufReader::new(input).lines() {
         let line = line.expect("read");
         if line.trim().is_empty() {
@@ -91,12 +136,26 @@ fn main() {
         writeln!(out, "{}", json!({"start": id})).unwrap();
         out.flush().unwrap();
         let mode2 = mode.clone();
-        let events = guarded(stack_mb, move || match mode2.as_str() {
+        let runner = move || match mode2.as_str() {
             "run" => run::run_case(&case),
             "heapgraph" => heapgraph::run_case(&case),
             "threads" => threads::run_case(&case),
+            "typecheck" => typeck::run_case(&case),
             _ => vec![json!(["bad_mode", mode2])],
-        });
+        };
+        let events = if main_thread {
+            match panic::catch_unwind(panic::AssertUnwindSafe(runner)) {
+                Ok(v) => v,
+                Err(_) => {
+                    let mut v = natives::take_log();
+                    let m = PANIC_MSG.with(|p| p.borrow_mut().take()).unwrap_or_default();
+                    v.push(json!(["panic", m]));
+                    v
+                }
+            }
+        } else {
+            guarded(stack_mb, runner)
+        };
         writeln!(out, "{}", json!({"id": id, "ev": events})).unwrap();
         out.flush().unwrap();
     }
